@@ -70,8 +70,9 @@ def payload(names, si, d, n, v):
         sender, target = (snd, tgt) if d == OUT else (tgt, snd)
         label = "L%d%s%d" % (si, DNAME[d], v)
         if v == 0:
-            p = refs.frame("D", n, sender, target,
-                           [(11, label), (55, "MSFT"), (54, 1), (38, 100), (40, 1)])
+            # header fields ahead of MsgSeqNum(34) contain the text "34=" (SenderSubID, a tag ending in ..34)
+            p = refs.build([(35, "D"), (49, sender), (56, target), (50, "DESK34=7"), (1034, "9"), (34, n),
+                            (52, "20240101-00:00:00.000"), (11, label), (55, "MSFT"), (54, 1), (38, 100), (40, 1)])
         else:
             # arbitrary bytes in a text field: 0xff, NUL, '=', a fake "34=" without SOH in front
             p = refs.frame("B", n, sender, target, [(148, label), (58, "x\xff\x00y=34=9 z")])
